@@ -14,13 +14,16 @@
        external.
    NOT modelled (external numerics): scipy expm, qutip QobjEvo/mesolve/sesolve, cubic splines,
    the %1.16f rounding of save_coeff -- see TRUSTED in tools/props/c14.py.
-   The code as found violates the property (resample_v0_refuted); the model describes the tree with
-   fixes/C14-step-last-sample.diff applied; resample_is_step_v0_guarded is the statement that holds
-   for the unfixed code. *)
+   Grids only need to be NON-DECREASING (a pulse may repeat a time point: zero-duration instruction).
+   The model describes the tree with fixes/C14-step-last-sample.diff, C14-read-coeff.diff and
+   C14-fill-coeff-repeated-points.diff applied.  Earlier versions of the code violate the property:
+     v0 (as first found)           resample_v0_refuted  / holds only under resample_is_step_v0_guarded
+     v1 (one-step advance, `if`)   resample_v1_refuted  / holds only under resample_is_step_v1_guarded
+                                   (strictly increasing grids with at least two points). *)
 From Coq Require Import String.
 From Coq Require Import List QArith Bool Sorted.
 From QV Require Import Model.Fill Spec.FillSpec Proofs.FillStep Proofs.FillGrid Proofs.FillMain
-  Proofs.FillTop Proofs.FillFile.
+  Proofs.FillWhile Proofs.FillTop Proofs.FillFile.
 Import ListNotations.
 Open Scope Q_scope.
 
@@ -60,9 +63,9 @@ Theorem slices_are_piecewise_H :
 Proof. exact piecewise_H. Qed.
 Print Assumptions slices_are_piecewise_H.
 
-(* the code as found *)
+(* the code as first found (v0) *)
 Theorem resample_v0_refuted :
-  inputs_okb leak_tol leak_input = true /\
+  inputs_okb_v1 leak_tol leak_input = true /\
   exists full rows p row,
     get_full_tlist leak_tol leak_input = Some full /\
     get_full_coeffs_v0 leak_tol leak_input = Some rows /\
@@ -73,10 +76,29 @@ Proof. exact leak_v0. Qed.
 Print Assumptions resample_v0_refuted.
 
 Theorem resample_is_step_v0_guarded : forall tol ps,
-  inputs_okb tol ps = true -> forallb no_tail_sampleb ps = true ->
+  inputs_okb_v1 tol ps = true -> forallb no_tail_sampleb ps = true ->
   resample_statement get_full_coeffs_v0 tol ps.
 Proof. exact resample_pointwise_v0. Qed.
 Print Assumptions resample_is_step_v0_guarded.
+
+(* the one-step advance (v1): refuted by a grid that repeats a time point; correct on strictly
+   increasing grids *)
+Theorem resample_v1_refuted :
+  inputs_okb leak_tol zero_dur_input = true /\
+  exists full rows p row,
+    get_full_tlist leak_tol zero_dur_input = Some full /\
+    get_full_coeffs_v1 leak_tol zero_dur_input = Some rows /\
+    nth_error zero_dur_input 0 = Some p /\ nth_error rows 0 = Some row /\
+    nth_error full 1 = Some (1 # 8) /\ nth_error full 2 = Some (1 # 4) /\
+    pulse_fn p (1 # 8) = 1 /\ nth_error row 1 = Some 0 /\
+    get_full_coeffs leak_tol zero_dur_input = Some [[1; 1; 0]].
+Proof. exact zero_duration_v1. Qed.
+Print Assumptions resample_v1_refuted.
+
+Theorem resample_is_step_v1_guarded : forall tol ps,
+  inputs_okb_v1 tol ps = true -> resample_statement get_full_coeffs_v1 tol ps.
+Proof. exact resample_pointwise_v1. Qed.
+Print Assumptions resample_is_step_v1_guarded.
 
 (* save_coeff / read_coeff bookkeeping *)
 Theorem save_read_roundtrip : forall inctime labels full rows,
@@ -92,7 +114,8 @@ Definition ex_pulses : list pulse :=
   [ mkPulse (Some [0; 1 # 2; 3 # 2]) (CArr [1; 2; 9]);          (* one sample per grid point *)
     mkPulse (Some [0; 3 # 4; 3 # 2; 5 # 2; 3]) (CArr [5; -6 # 4; 7; 1 # 8]);
     mkPulse None (CBool true);
-    mkPulse (Some [1 # 4; 2]) (CArr [3]) ].                       (* starts late, ends early *)
+    mkPulse (Some [1 # 4; 2]) (CArr [3]);                         (* starts late, ends early *)
+    mkPulse (Some [0; 1 # 2; 1 # 2; 1 # 2; 5 # 2]) (CArr [4; 8; 9; 6]) ].  (* repeated time point *)
 Example ex_inputs_ok : inputs_okb ex_tol ex_pulses = true.
 Proof. vm_compute. reflexivity. Qed.
 Example ex_grid : get_full_tlist ex_tol ex_pulses = Some [0; 1 # 4; 1 # 2; 3 # 4; 3 # 2; 2; 5 # 2; 3].
@@ -101,9 +124,11 @@ Example ex_rows : get_full_coeffs ex_tol ex_pulses =
   Some [ [1; 1; 2; 2; 0; 0; 0; 0];
          [5; 5; 5; -6 # 4; 7; 7; 1 # 8; 0];
          [1; 1; 1; 1; 1; 1; 1; 1];
-         [0; 3; 3; 3; 3; 0; 0; 0] ].
+         [0; 3; 3; 3; 3; 0; 0; 0];
+         [4; 4; 6; 6; 6; 6; 0; 0] ].
 Proof. vm_compute. reflexivity. Qed.
-Example ex_guard_v0 : forallb no_tail_sampleb (tl ex_pulses) = true /\ inputs_okb ex_tol (tl ex_pulses) = true.
+Example ex_guard_v0 : forallb no_tail_sampleb (removelast (tl ex_pulses)) = true
+                      /\ inputs_okb_v1 ex_tol (removelast (tl ex_pulses)) = true.
 Proof. split; vm_compute; reflexivity. Qed.
 Example ex_file : file_okb ["sx"; "sz"]%string [0; 1; 2] [[1; 2; 0]; [3; 4; 0]] = true.
 Proof. vm_compute. reflexivity. Qed.
